@@ -143,4 +143,8 @@ def run(ctx):
     # the stream is attempted in every dump: its writer is on every success path of generate_dump (same rule instance as C01/every-stream-attempted)
     from rules import c01 as _c01
     _c01.rule_stream_attempted(ctx, R="C15/stream-attempted", only=("thread_names_stream::write",))
+    # "absence never shifts the entries of other threads": list elements (tid AND name) move only as a whole — the list is written by
+    # enumerate_threads/push and suspend_threads/retain only (same rule instance as C04/thread-list-mutators)
+    from rules import c04 as _c04m
+    _c04m.rule_thread_list_mutators(ctx, R="C15/thread-list-mutators")
 
